@@ -32,6 +32,7 @@ impl<'a, 'b> GeneratorState<'a> {
         condition: &Expr,
         alternatives: &Expr,
         pos: usize,
+        high_byte: bool,
     ) -> Result<ExprType, Error> {
         match alternatives {
             Expr::BinOp { lhs, op, rhs } => {
@@ -47,13 +48,13 @@ impl<'a, 'b> GeneratorState<'a> {
                         let ifend_label = format!(".ifend{}", self.local_label_counter_if);
                         let else_label = format!(".else{}", self.local_label_counter_if);
                         self.generate_condition(condition, pos, true, &else_label, false)?;
-                        let left = self.generate_expr(lhs, pos, false, false)?;
-                        let la = self.generate_assign(&ExprType::A(false), &left, pos, false)?;
+                        let left = self.generate_expr(lhs, pos, high_byte, high_byte)?;
+                        let la = self.generate_assign(&ExprType::A(false), &left, pos, high_byte)?;
                         self.asm(JMP, &ExprType::Label(ifend_label.clone()), pos, false)?;
                         self.label(&else_label)?;
                         self.acc_in_use = false;
-                        let right = self.generate_expr(rhs, pos, false, false)?;
-                        let ra = self.generate_assign(&ExprType::A(false), &right, pos, false)?;
+                        let right = self.generate_expr(rhs, pos, high_byte, high_byte)?;
+                        let ra = self.generate_assign(&ExprType::A(false), &right, pos, high_byte)?;
                         self.label(&ifend_label)?;
                         self.asm(STA, &ExprType::Tmp(false), pos, false)?;
                         self.tmp_in_use = true;
@@ -73,20 +74,20 @@ impl<'a, 'b> GeneratorState<'a> {
                             self.generate_condition(condition, pos, true, &else_label, true)?;
                         if let Some(b) = cond {
                             if b {
-                                return Ok(self.generate_expr(rhs, pos, false, false)?);
+                                return Ok(self.generate_expr(rhs, pos, high_byte, high_byte)?);
                             } else {
-                                return Ok(self.generate_expr(lhs, pos, false, false)?);
+                                return Ok(self.generate_expr(lhs, pos, high_byte, high_byte)?);
                             }
                         } else {
-                            let left = self.generate_expr(lhs, pos, false, false)?;
+                            let left = self.generate_expr(lhs, pos, high_byte, high_byte)?;
                             let la =
-                                self.generate_assign(&ExprType::A(false), &left, pos, false)?;
+                                self.generate_assign(&ExprType::A(false), &left, pos, high_byte)?;
                             self.asm(JMP, &ExprType::Label(ifend_label.clone()), pos, false)?;
                             self.label(&else_label)?;
                             self.acc_in_use = false;
-                            let right = self.generate_expr(rhs, pos, false, false)?;
+                            let right = self.generate_expr(rhs, pos, high_byte, high_byte)?;
                             let ra =
-                                self.generate_assign(&ExprType::A(false), &right, pos, false)?;
+                                self.generate_assign(&ExprType::A(false), &right, pos, high_byte)?;
                             self.label(&ifend_label)?;
                             self.acc_in_use = true;
                             if la != ra {
